@@ -1,8 +1,10 @@
 (** C08 — IDs handed out inside one VMF are unique per kind and never reused while live.
-    Only statements here; proofs are in SM/IdManProofs.v and SM/IdLifeProofs.v. *)
+    Only statements here; proofs are in SM/IdManProofs.v, SM/IdManSpecProofs.v, SM/IdLifeProofs.v,
+    SM/IdWorldProofs.v and SM/IdNodeProofs.v. *)
 From stdpp Require Import gmap sets.
 From Coq Require Import ZArith.
-From SV Require Import SM.IdMan SM.IdManProofs SM.IdLife SM.IdLifeProofs Gen.IdSites_gen.
+From SV Require Import SM.IdMan SM.IdManProofs SM.IdManSpec SM.IdManSpecProofs SM.IdLife SM.IdLifeProofs
+  SM.IdWorld SM.IdWorldProofs SM.IdNode SM.IdNodeProofs Gen.IdSites_gen.
 Open Scope Z_scope.
 
 (** Release discipline read from the source census (Gen/IdSites_gen.v). *)
@@ -16,6 +18,15 @@ Definition release_on_remove (k : kind) : bool :=
 Definition all_id_stores_from_get_id : bool := forallb snd id_stores.
 (** Each class releases and acquires only in the manager of its own kind. *)
 Definition class_kind_consistent : bool := forallb snd class_kind_sites.
+
+(** Every constructor call and nested copy() inside the copy() methods and collapse_one that produces an object
+    of kind [k] takes the ID from the destination map (and there is at least one such site). *)
+Definition copy_to_dest (k : kind) : bool :=
+  forallb (λ '(k', _, ok), implb (kind_eqb k k') ok) copy_sites &&
+  existsb (λ '(k', _, _), kind_eqb k k') copy_sites.
+(** remove_ent releases the nav-node ID of an entity that keeps its 'nodeid' key. *)
+Definition node_release_on_remove : bool :=
+  existsb (λ '(k, s, _), kind_eqb k KNode && match s with SRemoveFromMap => true | _ => false end) release_sites.
 
 (** The allocator scan always terminates (pigeonhole on the used set). *)
 Theorem c08_get_id_total : ∀ d s, is_Some (get_id d s).
@@ -45,11 +56,90 @@ Proof. exact live_ids_nodup_refuted_with_release_on_remove. Qed.
 
 (** replaceNN indexes of one entity's fixups: distinct and positive after construction from any list,
     provided the constructor tests positivity, and kept by every set/delete. *)
-Theorem c08_fixup_init : ∀ l, FxInv (fx_init true l).
+Theorem c08_fixup_init : ∀ l, FxInv (fx_init true true l).
 Proof. exact fx_init_inv. Qed.
 Theorem c08_fixup_set : ∀ v f, FxInv f → FxInv (fx_set v f).
 Proof. exact fx_set_inv. Qed.
 Theorem c08_fixup_del : ∀ v f, FxInv f → FxInv (fx_del v f).
 Proof. exact fx_del_inv. Qed.
-Theorem c08_fixup_init_needs_positive_test : (fx_init false [(7, 0)]).*2 = [0].
+Theorem c08_fixup_init_needs_positive_test : (fx_init false true [(7, 0)]).*2 = [0].
 Proof. exact fx_init_refuted_without_positive_test. Qed.
+Theorem c08_fixup_init_needs_deferral : (fx_init true false [(10, 2); (11, 2); (12, 1)]).*2 = [2; 1; 1].
+Proof. exact fx_init_refuted_without_deferral. Qed.
+
+(** ------------------------------------------------------------------------------------------------
+    Round 2. *)
+
+(** IDMan refines a plain finite set: from any state that satisfies the invariant, every sequence of
+    get_id (any desired ID) / discard / remove / clear / __contains__ / __len__ yields exactly the results of the
+    set-level specification (desired ID if positive and free, else the least free positive ID) started from the
+    set of used IDs.  [search_pos] never shows. *)
+Theorem c08_idman_refines_set : ∀ ops s, Inv s → run_res true s ops = spec_run (used s) ops.
+Proof. exact idman_refines_set. Qed.
+Theorem c08_idman_hint_unobservable : ∀ ops s1 s2, Inv s1 → Inv s2 → used s1 = used s2 →
+  run_res true s1 ops = run_res true s2 ops.
+Proof. exact hint_unobservable. Qed.
+(** The states reachable in the code do satisfy it: [IDMan()] / [IDMan(existing)], and every operation keeps it. *)
+Theorem c08_idman_init_from_inv : ∀ l, Inv (init_from l).
+Proof. exact init_from_inv. Qed.
+Theorem c08_idman_step_inv : ∀ s o, Inv s → Inv (step true s o).1.
+Proof. exact step_inv. Qed.
+(** A refused or absent desired ID yields the *least* free positive ID. *)
+Theorem c08_get_id_least : ∀ d s i s', Inv s → get_id d s = Some (i, s') → ¬ (0 < d ∧ d ∉ used s) →
+  ∀ j, 1 ≤ j < i → j ∈ used s.
+Proof. exact get_id_least. Qed.
+(** Without the invariant the hint is observable (so the invariant is what makes it an optimisation). *)
+Theorem c08_idman_hint_needs_invariant :
+  run_res true {| used := ∅; pos := 5 |} [Get (-1)] = [5] ∧ spec_run ∅ [Get (-1)] = [1].
+Proof. exact hint_observable_without_invariant. Qed.
+
+(** Several maps: for every kind whose IDs are released only by destructors and whose copies allocate in the
+    destination map, after EVERY history of construction with arbitrary desired IDs, copy() within and across
+    maps, removal, re-adding, destruction, VMF.parse of documents with arbitrary (colliding, missing,
+    non-positive) IDs and collapse_one of instances, the existing objects belonging to one map have pairwise
+    distinct, positive IDs. *)
+Theorem c08_world_live_ids_unique : ∀ k es m, release_on_remove k = false → copy_to_dest k = true →
+  let w := wrun (release_on_remove k) (copy_to_dest k) es in
+  NoDup (live_ids_in m w) ∧ (∀ i, i ∈ live_ids_in m w → 0 < i).
+Proof. intros k es m -> ->. exact (world_live_ids_nodup_pos es m). Qed.
+(** ... in particular those the map lists (what export() writes). *)
+Theorem c08_world_map_ids_unique : ∀ k es m, release_on_remove k = false → copy_to_dest k = true →
+  let w := wrun (release_on_remove k) (copy_to_dest k) es in
+  NoDup (map_ids_in m w) ∧ (∀ i, i ∈ map_ids_in m w → 0 < i).
+Proof. intros k es m -> ->. exact (world_map_ids_nodup_pos es m). Qed.
+(** Whatever copy() does with its map argument, IDs are unique per *issuing* manager. *)
+Theorem c08_world_keys_unique : ∀ c es, let w := wrun false c es in
+  NoDup (wkeys (wobjs w)) ∧ ∀ m i, (m, i) ∈ wkeys (wobjs w) → 0 < i.
+Proof. exact wrun_keys_nodup. Qed.
+(** parse / collapse are the folds of their constructor / copy calls. *)
+Theorem c08_parse_is_creates : ∀ r c m ds w, wstep1 r c w (WParse m ds) = wrun_from r c w (WCreate m <$> ds).
+Proof. exact wparse_unfold. Qed.
+Theorem c08_collapse_is_copies : ∀ r c m ks w,
+  wstep1 r c w (WCollapse ks m) = wrun_from r c w ((λ k, WCopy k m (-1)) <$> ks).
+Proof. exact wcollapse_unfold. Qed.
+(** Both hypotheses are necessary. *)
+Theorem c08_copy_from_source_refuted : map_ids_in 1 (wrun false false xmap_copy_history) = [1; 2; 2].
+Proof. exact copy_from_source_refuted. Qed.
+Theorem c08_collapse_from_source_refuted :
+  map_ids_in 1 (wrun false false [WParse 0 [7; 7; 0]; WParse 1 [3; 1]; WCollapse [0; 1; 2]%nat 1]) = [3; 1; 3; 4; 5].
+Proof. exact collapse_from_source_refuted. Qed.
+Theorem c08_world_release_on_remove_refuted :
+  map_ids_in 0 (wrun true true [WCreate 0 (-1); WRemove 0; WCreate 0 (-1); WReAdd 0]) = [1; 1].
+Proof. exact world_release_on_remove_refuted. Qed.
+Example c08_parse_colliding_ids_renumbered :
+  map_ids_in 0 (wrun false true [WParse 0 [5; 5; -1; 0; 1; 5; 2]]) = [5; 1; 2; 3; 4; 6; 7].
+Proof. exact parse_colliding_ids. Qed.
+
+(** Nav-node IDs ('nodeid' keyvalue): when remove_ent does not release the ID of an entity that keeps the key,
+    the node IDs held by existing entities are pairwise distinct and positive after every history of
+    construction / parse with any value, key assignment, key deletion, copy, removal, re-adding and destruction
+    — for either shape of add_ent (re-allocating or not) and of the destructor (releasing or not). *)
+Theorem c08_node_ids_unique : ∀ es, node_release_on_remove = false →
+  let w := nrun node_realloc_on_add node_release_on_remove node_release_in_del es in
+  NoDup (nids (nents w)) ∧ (∀ i, i ∈ nids (nents w) → 0 < i).
+Proof. intros es ->. exact (node_ids_nodup_pos _ _ es). Qed.
+(** The pinned tree's shape (remove_ent releases) is refuted, with and without the re-allocation in add_ent. *)
+Theorem c08_node_release_on_remove_refuted :
+  has_dup (nmap_ids (nents (nrun false true false node_release_on_remove_history))) = true ∧
+  has_dup (nmap_ids (nents (nrun true true false [NCreate (Some 0); NRemove 0; NCreate (Some (-1)); NCreate (Some (-1)); NReAdd 0; NCreate (Some (-1))]))) = true.
+Proof. exact node_release_on_remove_refuted. Qed.
